@@ -85,8 +85,8 @@ def shrink(fail, budget=60):
 def run(ctx):
     quick = ctx.tier == "quick"
     cases = answers.load_corpus("C08")
-    cases += answers.gen_cases(ctx, 120 if quick else 2500, (2, 5), (1, 6), [False], ties=0.5, cost=0.12)
-    ext = answers.gen_cases(ctx, 150 if quick else 3000, (2, 5), (1, 6), [True], ties=0.4, consts=0.15)
+    cases += answers.gen_cases(ctx, 120 if quick else 2500, (2, 5), (1, 6), [False], ties=0.5, cost=0.12, rekey=0.3)
+    ext = answers.gen_cases(ctx, 150 if quick else 3000, (2, 5), (1, 6), [True], ties=0.4, consts=0.15, rekey=0.3)
     ext.sort(key=lambda c: 0 if (c["_info"].get("inf") and c["_info"].get("layers")) else 1)      # finite layers and an infinity layer first
     cases += ext[:80 if quick else 1500]
     clean = [{k: v for k, v in c.items() if not k.startswith("_")} for c in cases]
